@@ -318,6 +318,34 @@ def r22_update_alignment(facts):
                                 "`%s` is filled and taken from the back in the same parameter order: parameters receive each other's values" % name)
                     else:
                         c.unk(inst, where, "`%s` is consumed with %s: alignment with its producer not understood" % (name, co["how"]))
+        # a test of a gradient's presence that selects parameters is made BEFORE the traversal that takes the gradients out of their slots:
+        # afterwards every slot is empty and every parameter looks frozen
+        def _takes(e):
+            todo, seen_ = [e], set()
+            while todo:
+                x0 = todo.pop()
+                for x in walk(x0):
+                    if x.get("k") == "Call" and ((resolved(x) or "").endswith("::replace_gradient") or (callee(x) or "").endswith("::take") and _mentions_gradient(facts, x)):
+                        return True
+                    if x.get("k") == "Closure" and x["closure"] not in seen_:
+                        seen_.add(x["closure"])
+                        cb_ = facts.body(x["closure"])
+                        if cb_ is not None:
+                            todo.append(facts.root(cb_))
+            return False
+        all_stmts = root["stmts"] + ([{"s": "expr", "e": root["e"]}] if root.get("e") is not None else [])
+        take_at = [i for i, s_ in enumerate(all_stmts) if (s_.get("e") if s_["s"] == "expr" else s_.get("init")) is not None
+                   and _takes(s_.get("e") if s_["s"] == "expr" else s_.get("init"))]
+        if take_at:
+            first_take = take_at[0]
+            for t in travs:
+                if t["i"] <= first_take:
+                    continue
+                selecting = [node for cal, node in t["chain"] if cal in (IT + "filter", IT + "map", IT + "filter_map", IT + "take_while", IT + "skip_while") and len(node["args"]) > 1
+                             and _mentions_gradient(facts, node["args"][1]) and not _takes(node["args"][1])]
+                if selecting:
+                    c.bad("order:%s#%d" % (u["def"], t["i"]), loc(u, selecting[0]), "a traversal tests the parameters' gradients for presence AFTER an earlier statement has taken the gradients out of "
+                          "their slots: every slot is empty by then, so every parameter is treated as frozen (nothing is written back although the gradients are gone)")
         # subset consistency: the filter that selects who contributes to the flat buffers and the
         # filter on the mask that selects who is written back must select the same parameters
         sub = _subset_consistency(facts, u, travs, vecs)
@@ -721,6 +749,15 @@ def r42_writeback_gated(facts):
                 tv = var_of(lhs)
                 if gate is None and tv in selvars:
                     gate = "the parameter is taken from a collection filled only for parameters with a gradient"
+                if gate is None:
+                    for x in walk(lhs):
+                        ix = None
+                        if x.get("k") == "Index":
+                            ix = x.get("i")
+                        elif x.get("k") == "Call" and callee(x) in ("core::ops::index::IndexMut::index_mut", "core::ops::index::Index::index") and len(x["args"]) == 2:
+                            ix = x["args"][1]
+                        if ix is not None and any(y.get("k") in ("VarRef", "UpvarRef") and y["v"] in selvars for y in walk(ix)):
+                            gate = "the parameter is addressed by a position taken from a collection filled only for parameters with a gradient"
                 if gate:
                     c.ok(inst, where, "the parameter is overwritten only where it was selected (%s)" % gate)
                 else:
@@ -1219,6 +1256,19 @@ def r52_model_update_delegates(facts):
         if not calls:
             c.bad(inst, where0, "Model::update never calls the optimizer's update: no parameter of the model is ever stepped")
             continue
+        # an early return in front of the call skips the step (and leaves the gradients in place) whenever its condition holds
+        skipped = None
+        for n_, ctx_ in F.walk_ctx(facts.root(u)):
+            if any(n_ is x for x, _ in calls):
+                for fr in ctx_:
+                    if fr[0] == "after" and isinstance(fr[1], dict):
+                        cnd = fr[1].get("cond")
+                        about_layers = any(x.get("k") == "Field" and x.get("name") == "layers" for x in walk(cnd)) if cnd is not None else False
+                        if not about_layers:
+                            skipped = skipped or fr[1]
+        if skipped is not None:
+            c.bad(inst + "#early-exit", loc(u, skipped), "Model::update returns before calling the optimizer when `%s`: on those iterations no parameter is stepped and the gradients stay "
+                  "in place, so the next backward pass adds to them" % show(skipped.get("cond"))[:60])
         if all(cond for _, cond in calls):
             c.unk(inst, loc(u, calls[0][0]), "the optimizer's update is called under a condition")
             continue
@@ -1254,6 +1304,33 @@ def r52_model_update_delegates(facts):
             c.bad(inst, loc(pb, selective), "the parameter collector leaves layers or parameters out (`%s`): those parameters are never handed to the optimizer" % show(selective)[:60])
         else:
             c.ok(inst, loc(u, n), "Optimizer::update receives the parameters of every layer, unconditionally")
+    # Model::backward differentiates the cost on every path: a return in front of the pass (a loss of zero, a tolerance) leaves the
+    # parameters without the gradient of this iteration although the loss's gradient need not vanish where the loss does
+    mbs = [b for b in facts.fns() if b.get("name") == "backward" and (b.get("impl_self") or "").startswith("corgi::model::Model") and b.get("impl_trait_def") is None]
+    for mb in mbs:
+        inst = "model-backward:%s" % mb["def"]
+        def _is_pass(n_):
+            if n_.get("k") != "Call" or not (resolved(n_) or "").endswith("::backward"):
+                return False
+            tb = facts.body(resolved(n_))
+            return tb is not None and tb.get("impl_self") == ARRAY and tb.get("name") == "backward"
+        passes = [(n_, ctx_) for n_, ctx_ in F.walk_ctx(facts.root(mb)) if _is_pass(n_)]
+        if not passes:
+            if any(x.get("k") == "Call" and (x.get("callee") or {}).get("resolved_local") and (resolved(x) or "").startswith("corgi::model::") for x in walk(facts.root(mb))):
+                c.unk(inst, "%s:%d" % (rel(mb["file"]), mb["sp"][0]), "Model::backward does not call Array::backward itself (a helper may)")
+            else:
+                c.bad(inst, "%s:%d" % (rel(mb["file"]), mb["sp"][0]), "Model::backward never starts a backward pass: no parameter ever receives a gradient")
+            continue
+        n_, ctx_ = passes[0]
+        early = [fr[1] for fr in ctx_ if fr[0] == "after" and isinstance(fr[1], dict)]
+        cond_ = [fr for fr in ctx_ if len(fr) >= 3 and (fr[0] in ("if", "guard", "logic") or (fr[0] == "arm" and not str(fr[1].get("source", "")).startswith("ForLoopDesugar")))]
+        if early:
+            c.bad(inst, loc(mb, early[0]), "Model::backward returns before the backward pass when `%s`: on those iterations the parameters get no gradient although the loss's gradient "
+                  "need not be zero there" % show(early[0].get("cond"))[:60])
+        elif cond_:
+            c.unk(inst, loc(mb, n_), "the backward pass of the cost is started under a condition")
+        else:
+            c.ok(inst, loc(mb, n_), "the cost is differentiated on every path through Model::backward")
     # every layer hands out all of its array-typed fields
     from .repr_rules import vec_literal_elems
     lps = [b for b in facts.fns() if b.get("impl_trait_def") == "corgi::layer::Layer" and b.get("name") == "parameters" and b.get("thir")]
